@@ -862,66 +862,510 @@ Section KKRatio43.
   Qed.
 End KKRatio43.
 
-(** ---- 9. examples and machine checks against the exact oracle ---- *)
-Notation idZ := (fun v : Z => v).
+(** ---- 9. k = 2: number differencing (Fischetti and Martello's 7/6) ---- *)
 
-Definition kk_sums (k : nat) (vs : list Z) : list Z :=
-  match kk idZ true k vs with Ok b => sums b | Err _ => [] end.
-Definition optv (k : nat) (vs : list Z) : Z :=
-  match opt_value MinLargest k vs with Some v => v | None => 0 end.
+(** the list of spreads of a 2-bin heap evolves by differencing the two largest numbers *)
+Fixpoint ins (x : Z) (l : list Z) : list Z :=
+  match l with
+  | [] => [x]
+  | y :: t => if y <? x then x :: y :: t else y :: ins x t
+  end.
 
-(** the requested bound is attained for k = 2 (Fischetti and Martello's 7/6) *)
-Example kk_43_tight_k2 :
-  kk_sums 2 [3; 3; 2; 2; 2] = [5; 7] /\ optv 2 [3; 3; 2; 2; 2] = 6 /\ 3 * 2 * 7 = (4 * 2 - 1) * 6.
-Proof. vm_compute. repeat split; reflexivity. Qed.
+Fixpoint kd (fuel : nat) (l : list Z) : list Z :=
+  match fuel with
+  | O => l
+  | S f => match l with x :: y :: r => kd f (ins (x - y) r) | _ => l end
+  end.
 
-(** the theorems applied to it through the verified oracle *)
-Example kk_32_example b : kk idZ true 2 [3; 3; 2; 2; 2] = Ok b -> 4 * zmax (sums b) <= 5 * 6.
+Notation desc := (StronglySorted (fun a b : Z => b <= a)).
+
+Lemma ins_perm x l : Permutation (ins x l) (x :: l).
 Proof.
-  intros H. apply (kk_ratio_54_k2_partial idZ [3; 3; 2; 2; 2] b 6); [discriminate| |exact H|].
-  - repeat constructor; lia.
-  - destruct (opt_value_spec MinLargest 2 [3; 3; 2; 2; 2] ltac:(lia)) as (v & Ev & Hv).
-    vm_compute in Ev. injection Ev as <-. rewrite map_id. exact Hv.
+  induction l as [|y t IH]; cbn [ins]; [reflexivity|]. destruct (y <? x); [reflexivity|].
+  rewrite IH. apply perm_swap.
 Qed.
 
-Fixpoint lcg43 (n : nat) (s md : Z) : list Z :=
-  match n with
-  | O => []
-  | S m => let s' := (s * 1103515245 + 12345) mod 2147483648 in (1 + (s' / 65536) mod md) :: lcg43 m s' md
-  end.
-Definition inst43 (seed : Z) : nat * list Z :=
-  (Z.to_nat (1 + seed mod 4), lcg43 (Z.to_nat (1 + seed mod 9)) seed (3 + seed mod 17)).
+Lemma ins_zsum x l : zsum (ins x l) = x + zsum l.
+Proof. rewrite (zsum_perm _ _ (ins_perm x l)). reflexivity. Qed.
 
-Definition kth_of (j : nat) (vs : list Z) : Z := nth j (sort_desc idZ vs) 0.
-Definition check_dichotomy (k : nat) (vs : list Z) : bool :=
-  let s := kk_sums k vs in (zmax s <=? zmax vs) || (zmax s - zmin s <=? kth_of k vs).
-Definition check_32 (k : nat) (vs : list Z) : bool :=
-  2 * Z.of_nat k * zmax (kk_sums k vs) <=? (3 * Z.of_nat k - 1) * optv k vs.
-Definition check_43 (k : nat) (vs : list Z) : bool :=
-  3 * Z.of_nat k * zmax (kk_sums k vs) <=? (4 * Z.of_nat k - 1) * optv k vs.
+Lemma ins_length x l : length (ins x l) = S (length l).
+Proof. apply (Permutation_length (ins_perm x l)). Qed.
 
-(** the proved statements and the requested (unproved) one on 300 pseudo-random instances,
-    k = 1..4, up to 9 items *)
-Example kk_checks_random :
-  forallb (fun s => let (k, vs) := inst43 s in check_dichotomy k vs && check_32 k vs && check_43 k vs)
-          (map Z.of_nat (seq 1 300)) = true.
-Proof. vm_compute. reflexivity. Qed.
+Lemma ins_desc x l : desc l -> desc (ins x l).
+Proof.
+  induction 1 as [|y t Ht IH Hy]; cbn [ins]; [repeat constructor|].
+  destruct (y <? x) eqn:E.
+  - constructor; [constructor; assumption|]. constructor; [lia|].
+    eapply Forall_impl; [|exact Hy]. intros a Ha. cbv beta in Ha. lia.
+  - constructor; [exact IH|]. eapply Permutation_Forall; [symmetry; apply ins_perm|].
+    constructor; [lia|exact Hy].
+Qed.
 
-(** OPEN for k = 2 (Fischetti and Martello 1987): the hypothesis of [kk_ratio_43_from_dichotomy],
-    here only checked on instances *)
-Definition check_dichotomy_2k (k : nat) (vs : list Z) : bool :=
-  let s := kk_sums k vs in (zmax s <=? optv k vs) || (zmax s - zmin s <=? kth_of (2 * k) vs).
+Lemma ins_Forall (P : Z -> Prop) x l : P x -> Forall P l -> Forall P (ins x l).
+Proof. intros Hx Hl. eapply Permutation_Forall; [symmetry; apply ins_perm|]. constructor; assumption. Qed.
 
-Example kk_dichotomy_2k_k2_random :
-  forallb (fun s => check_dichotomy_2k 2 (lcg43 (Z.to_nat (1 + s mod 11)) s (3 + s mod 23)))
-          (map Z.of_nat (seq 1 300)) = true.
-Proof. vm_compute. reflexivity. Qed.
+Lemma ins_front x l : Forall (fun y => y < x) l -> ins x l = x :: l.
+Proof.
+  destruct l as [|y t]; [reflexivity|]. intros H. apply Forall_cons_iff in H. destruct H as [H _].
+  cbn [ins]. destruct (y <? x) eqn:E; [reflexivity|lia].
+Qed.
 
-(** ... but that hypothesis is FALSE for k = 3: sums 6, 7, 8, optimum 7, 7th largest value 1.
-    (The bound itself holds: 9 * 8 <= 11 * 7.)  So the proof of the general bound cannot be
-    the threshold argument used here. *)
-Example kk_dichotomy_2k_fails_k3 :
-  kk_sums 3 [6; 4; 3; 3; 2; 2; 1] = [6; 7; 8] /\ optv 3 [6; 4; 3; 3; 2; 2; 1] = 7 /\
-  kth_of 6 [6; 4; 3; 3; 2; 2; 1] = 1 /\ check_dichotomy_2k 3 [6; 4; 3; 3; 2; 2; 1] = false /\
-  check_43 3 [6; 4; 3; 3; 2; 2; 1] = true.
-Proof. vm_compute. repeat split; reflexivity. Qed.
+Lemma ins_after x y t : x <= y -> ins x (y :: t) = y :: ins x t.
+Proof. intros H. cbn [ins]. destruct (y <? x) eqn:E; [lia|reflexivity]. Qed.
+
+Lemma zs_cons x l : zsum (x :: l) = x + zsum l.
+Proof. reflexivity. Qed.
+Lemma zs_nil : zsum [] = 0.
+Proof. reflexivity. Qed.
+
+Section Diff.
+  Variable G : Z.
+  Hypothesis HG : 0 <= G.
+  Definition smallz (z : Z) : Prop := 0 <= z <= G.
+
+  Lemma desc_inv x l : desc (x :: l) -> desc l /\ Forall (fun a => a <= x) l.
+  Proof. intros H. inversion H as [|x' l' H1 H2]; subst. split; assumption. Qed.
+
+  (** all numbers small: the result is small *)
+  Lemma kd_small_single : forall f l, desc l -> l <> [] -> Forall smallz l -> (length l <= S f)%nat ->
+    exists d, kd f l = [d] /\ 0 <= d <= G.
+  Proof.
+    induction f as [|f IH]; intros l Hd Hne Hs Hlen.
+    - destruct l as [|x [|y r]]; [congruence| |cbn [length] in Hlen; lia].
+      exists x. split; [reflexivity|]. exact (Forall_inv Hs).
+    - destruct l as [|x [|y r]]; [congruence| |].
+      + exists x. split; [reflexivity|]. exact (Forall_inv Hs).
+      + cbn [kd]. destruct (desc_inv _ _ Hd) as [Hd1 Hx]. destruct (desc_inv _ _ Hd1) as [Hd2 Hy].
+        pose proof (Forall_inv Hs) as Sx. pose proof (Forall_inv (Forall_inv_tail Hs)) as Sy.
+        pose proof (Forall_inv Hx) as Hyx. unfold smallz in *.
+        apply IH.
+        * apply ins_desc. exact Hd2.
+        * intros E. pose proof (ins_length (x - y) r) as L. rewrite E in L. discriminate L.
+        * apply ins_Forall; [unfold smallz; lia|exact (Forall_inv_tail (Forall_inv_tail Hs))].
+        * rewrite ins_length. cbn [length] in Hlen. lia.
+  Qed.
+
+  (** one number above small ones: it absorbs them all, or the result is small *)
+  Lemma kd_dom : forall f x r, desc (x :: r) -> 0 <= x -> Forall smallz r -> (length r <= f)%nat ->
+    exists d, kd f (x :: r) = [d] /\ (0 <= d <= G \/ d = x - zsum r).
+  Proof.
+    induction f as [|f IH]; intros x r Hd Hx Hs Hlen.
+    - destruct r as [|y r]; [|cbn [length] in Hlen; lia]. exists x. split; [reflexivity|]. right. rewrite zs_nil. lia.
+    - destruct r as [|y r].
+      + exists x. split; [reflexivity|]. right. rewrite zs_nil. lia.
+      + cbn [kd]. destruct (desc_inv _ _ Hd) as [Hd1 Hxr]. destruct (desc_inv _ _ Hd1) as [Hd2 Hyr].
+        pose proof (Forall_inv Hs) as Sy. pose proof (Forall_inv_tail Hs) as Sr.
+        pose proof (Forall_inv Hxr) as Hyx. cbv beta in Hyx. unfold smallz in Sy. cbn [length] in Hlen.
+        destruct (Z_lt_le_dec G (x - y)) as [Hbig|Hsm].
+        * assert (Hlt : Forall (fun a => a < x - y) r).
+          { eapply Forall_impl; [|exact Sr]. intros a Ha. unfold smallz in Ha. lia. }
+          rewrite (ins_front _ _ Hlt).
+          destruct (IH (x - y) r) as (d & E & Hdd); [| |exact Sr| |].
+          -- constructor; [exact Hd2|]. eapply Forall_impl; [|exact Hlt]. intros a Ha. cbv beta in Ha. lia.
+          -- lia.
+          -- lia.
+          -- exists d. split; [exact E|]. rewrite zs_cons. destruct Hdd as [Hdd|Hdd]; [left; exact Hdd|right; lia].
+        * destruct (kd_small_single f (ins (x - y) r)) as (d & E & Hdd).
+          -- apply ins_desc. exact Hd2.
+          -- intros E. pose proof (ins_length (x - y) r) as L. rewrite E in L. discriminate L.
+          -- apply ins_Forall; [unfold smallz; lia|exact Sr].
+          -- rewrite ins_length. lia.
+          -- exists d. split; [exact E|left; exact Hdd].
+  Qed.
+
+  Lemma ins_nonnil x l : ins x l <> [].
+  Proof. intros E. pose proof (ins_length x l) as L. rewrite E in L. discriminate L. Qed.
+
+  Lemma small_lt c r : G < c -> Forall smallz r -> Forall (fun a => a < c) r.
+  Proof. intros Hc Hr. eapply Forall_impl; [|exact Hr]. intros a Ha. unfold smallz in Ha. lia. Qed.
+
+  Lemma desc_cons x l : desc l -> Forall (fun a => a <= x) l -> desc (x :: l).
+  Proof. intros H1 H2. constructor; assumption. Qed.
+
+  Lemma lt_le_all c r : Forall (fun a => a < c) r -> Forall (fun a : Z => a <= c) r.
+  Proof. intros H. eapply Forall_impl; [|exact H]. intros a Ha. cbv beta in Ha. lia. Qed.
+
+  (** two numbers above small ones *)
+  Lemma kd_two f x y r : desc (x :: y :: r) -> 0 <= y -> Forall smallz r -> (S (length r) <= f)%nat ->
+    exists d, kd f (x :: y :: r) = [d] /\ (0 <= d <= G \/ d = x - y - zsum r).
+  Proof.
+    intros Hd Hy Hs Hlen. destruct f as [|f]; [lia|]. cbn [kd].
+    destruct (desc_inv _ _ Hd) as [Hd1 Hxr]. destruct (desc_inv _ _ Hd1) as [Hd2 Hyr].
+    pose proof (Forall_inv Hxr) as Hyx. cbv beta in Hyx.
+    destruct (Z_lt_le_dec G (x - y)) as [Hbig|Hsm].
+    - pose proof (small_lt _ _ Hbig Hs) as Hlt. rewrite (ins_front _ _ Hlt).
+      apply kd_dom; [apply desc_cons; [exact Hd2|apply lt_le_all; exact Hlt]|lia|exact Hs|lia].
+    - destruct (kd_small_single f (ins (x - y) r)) as (d & E & Hdd).
+      + apply ins_desc. exact Hd2.
+      + apply ins_nonnil.
+      + apply ins_Forall; [unfold smallz; lia|exact Hs].
+      + rewrite ins_length. lia.
+      + exists d. split; [exact E|left; exact Hdd].
+  Qed.
+
+  (** a number above small ones, among which another number c has been inserted *)
+  Lemma kd_dom_ins f x c q : desc (x :: q) -> Forall smallz q -> 0 <= c <= x -> (S (length q) <= f)%nat ->
+    exists d, kd f (x :: ins c q) = [d] /\ (0 <= d <= G \/ d = x - c - zsum q).
+  Proof.
+    intros Hd Hs Hc Hlen. destruct (desc_inv _ _ Hd) as [Hd1 Hxq].
+    destruct (Z_lt_le_dec G c) as [Hbig|Hsm].
+    - pose proof (small_lt _ _ Hbig Hs) as Hlt. rewrite (ins_front _ _ Hlt).
+      apply kd_two; [|lia|exact Hs|exact Hlen].
+      apply desc_cons; [apply desc_cons; [exact Hd1|apply lt_le_all; exact Hlt]|].
+      constructor; [lia|exact Hxq].
+    - destruct (kd_dom f x (ins c q)) as (d & E & Hdd).
+      + apply desc_cons; [apply ins_desc; exact Hd1|apply ins_Forall; [lia|exact Hxq]].
+      + lia.
+      + apply ins_Forall; [unfold smallz; lia|exact Hs].
+      + rewrite ins_length. exact Hlen.
+      + exists d. split; [exact E|]. rewrite ins_zsum in Hdd. destruct Hdd as [Hdd|Hdd]; [left; exact Hdd|right; lia].
+  Qed.
+
+  (** two numbers inserted among small ones *)
+  Lemma kd_ins_ins f c1 c' q : desc q -> Forall smallz q -> 0 <= c1 -> 0 <= c' ->
+    (S (length q) <= f)%nat ->
+    exists d, kd f (ins c' (ins c1 q)) = [d] /\
+      (0 <= d <= G \/ d = c' - c1 - zsum q \/ d = c1 - c' - zsum q).
+  Proof.
+    intros Hd Hs H1 H2 Hlen.
+    destruct (Z_lt_le_dec G c1) as [Hb1|Hs1].
+    - pose proof (small_lt _ _ Hb1 Hs) as Hlt. rewrite (ins_front _ _ Hlt).
+      assert (Hd1 : desc (c1 :: q)) by (apply desc_cons; [exact Hd|apply lt_le_all; exact Hlt]).
+      destruct (Z_lt_le_dec c1 c') as [Hlt'|Hle'].
+      + assert (E : ins c' (c1 :: q) = c' :: c1 :: q).
+        { cbn [ins]. destruct (c1 <? c') eqn:E; [reflexivity|lia]. }
+        rewrite E. destruct (kd_two f c' c1 q) as (d & Ed & Hdd); [|lia|exact Hs|exact Hlen|].
+        * apply desc_cons; [exact Hd1|]. constructor; [lia|].
+          eapply Forall_impl; [|exact Hlt]. intros a Ha. cbv beta in Ha. lia.
+        * exists d. split; [exact Ed|]. destruct Hdd as [Hdd|Hdd]; [left; exact Hdd|right; left; exact Hdd].
+      + rewrite (ins_after c' c1 q Hle').
+        destruct (kd_dom_ins f c1 c' q Hd1 Hs ltac:(lia) Hlen) as (d & Ed & Hdd).
+        exists d. split; [exact Ed|]. destruct Hdd as [Hdd|Hdd]; [left; exact Hdd|right; right; exact Hdd].
+    - assert (Hq1 : Forall smallz (ins c1 q)) by (apply ins_Forall; [unfold smallz; lia|exact Hs]).
+      destruct (Z_lt_le_dec G c') as [Hb'|Hs'].
+      + pose proof (small_lt _ _ Hb' Hq1) as Hlt. rewrite (ins_front _ _ Hlt).
+        destruct (kd_dom f c' (ins c1 q)) as (d & Ed & Hdd); [|lia|exact Hq1| |].
+        * apply desc_cons; [apply ins_desc; exact Hd|apply lt_le_all; exact Hlt].
+        * rewrite ins_length. exact Hlen.
+        * exists d. split; [exact Ed|]. rewrite ins_zsum in Hdd.
+          destruct Hdd as [Hdd|Hdd]; [left; exact Hdd|right; left; lia].
+      + destruct (kd_small_single f (ins c' (ins c1 q))) as (d & Ed & Hdd).
+        * apply ins_desc, ins_desc. exact Hd.
+        * apply ins_nonnil.
+        * apply ins_Forall; [unfold smallz; lia|exact Hq1].
+        * rewrite !ins_length. lia.
+        * exists d. split; [exact Ed|left; exact Hdd].
+  Qed.
+
+  Lemma ins_lt x y t : y < x -> ins x (y :: t) = x :: y :: t.
+  Proof. intros H. cbn [ins]. destruct (y <? x) eqn:E; [reflexivity|lia]. Qed.
+
+  (** three numbers above small ones *)
+  Lemma kd_three f a1 a2 a3 q : desc (a1 :: a2 :: a3 :: q) -> 0 <= a3 -> Forall smallz q ->
+    (S (S (length q)) <= f)%nat ->
+    exists d, kd f (a1 :: a2 :: a3 :: q) = [d] /\
+      (0 <= d <= G \/ a1 + a2 + a3 + zsum q + d = 2 * a1 \/ a1 + a2 + a3 + zsum q + d = 2 * (a2 + a3)).
+  Proof.
+    intros Hd H3 Hs Hlen. destruct f as [|f]; [lia|]. cbn [kd].
+    destruct (desc_inv _ _ Hd) as [Hd1 Hx1]. destruct (desc_inv _ _ Hd1) as [Hd2 Hx2].
+    destruct (desc_inv _ _ Hd2) as [Hd3 Hx3].
+    pose proof (Forall_inv Hx1) as H21. pose proof (Forall_inv Hx2) as H32. cbv beta in H21, H32.
+    destruct (Z_lt_le_dec a3 (a1 - a2)) as [Hlt|Hle].
+    - rewrite (ins_lt _ _ _ Hlt).
+      destruct (kd_two f (a1 - a2) a3 q) as (d & E & Hdd); [|lia|exact Hs|lia|].
+      + apply desc_cons; [exact Hd2|]. constructor; [lia|].
+        eapply Forall_impl; [|exact Hx3]. intros a Ha. cbv beta in Ha. lia.
+      + exists d. split; [exact E|]. destruct Hdd as [Hdd|Hdd]; [left; exact Hdd|right; left; lia].
+    - rewrite (ins_after _ _ _ Hle).
+      destruct (kd_dom_ins f a3 (a1 - a2) q Hd2 Hs ltac:(lia) ltac:(lia)) as (d & E & Hdd).
+      exists d. split; [exact E|]. destruct Hdd as [Hdd|Hdd]; [left; exact Hdd|right; right; lia].
+  Qed.
+
+  Definition out4 (a1 a2 a3 a4 S d : Z) : Prop :=
+    0 <= d <= G \/ S + d = 2 * a1 \/ S + d = 2 * (a2 + a3) \/
+    (S + d = 2 * (a2 + a3 + a4) /\ a2 + a3 <= a1) \/ (S + d = 2 * (a1 + a4) /\ a1 <= a2 + a3).
+
+  (** four numbers above small ones *)
+  Lemma kd_four f a1 a2 a3 a4 q : desc (a1 :: a2 :: a3 :: a4 :: q) -> 0 <= a4 -> Forall smallz q ->
+    (S (S (S (length q))) <= f)%nat ->
+    exists d, kd f (a1 :: a2 :: a3 :: a4 :: q) = [d] /\ out4 a1 a2 a3 a4 (a1 + a2 + a3 + a4 + zsum q) d.
+  Proof.
+    intros Hd H4 Hs Hlen. destruct f as [|[|f]]; [lia|lia|].
+    destruct (desc_inv _ _ Hd) as [Hd1 Hx1]. destruct (desc_inv _ _ Hd1) as [Hd2 Hx2].
+    destruct (desc_inv _ _ Hd2) as [Hd3 Hx3]. destruct (desc_inv _ _ Hd3) as [Hd4 Hx4].
+    pose proof (Forall_inv Hx1) as H21. pose proof (Forall_inv Hx2) as H32.
+    pose proof (Forall_inv Hx3) as H43. cbv beta in H21, H32, H43.
+    assert (Hq4 : forall c, a4 <= c -> Forall (fun a => a <= c) q).
+    { intros c Hc. eapply Forall_impl; [|exact Hx4]. intros a Ha. cbv beta in Ha. lia. }
+    unfold out4. cbn [kd].
+    destruct (Z_lt_le_dec a3 (a1 - a2)) as [Hlt|Hle].
+    - rewrite (ins_lt _ _ _ Hlt). cbn [kd].
+      destruct (Z_lt_le_dec a4 (a1 - a2 - a3)) as [Hlt2|Hle2].
+      + rewrite (ins_lt _ _ _ Hlt2).
+        destruct (kd_two f (a1 - a2 - a3) a4 q) as (d & E & Hdd); [|lia|exact Hs|lia|].
+        * apply desc_cons; [exact Hd3|]. constructor; [lia|apply Hq4; lia].
+        * exists d. split; [exact E|]. destruct Hdd as [Hdd|Hdd]; [left; exact Hdd|right; left; lia].
+      + rewrite (ins_after _ _ _ Hle2).
+        destruct (kd_dom_ins f a4 (a1 - a2 - a3) q Hd3 Hs ltac:(lia) ltac:(lia)) as (d & E & Hdd).
+        exists d. split; [exact E|]. destruct Hdd as [Hdd|Hdd]; [left; exact Hdd|right; right; right; left; lia].
+    - rewrite (ins_after _ _ _ Hle).
+      destruct (Z_lt_le_dec a4 (a1 - a2)) as [Hlt2|Hle2].
+      + rewrite (ins_lt _ _ _ Hlt2). cbn [kd].
+        destruct (Z_lt_le_dec a4 (a3 - (a1 - a2))) as [Hlt3|Hle3].
+        * rewrite (ins_lt _ _ _ Hlt3).
+          destruct (kd_two f (a3 - (a1 - a2)) a4 q) as (d & E & Hdd); [|lia|exact Hs|lia|].
+          -- apply desc_cons; [exact Hd3|]. constructor; [lia|apply Hq4; lia].
+          -- exists d. split; [exact E|]. destruct Hdd as [Hdd|Hdd]; [left; exact Hdd|right; right; left; lia].
+        * rewrite (ins_after _ _ _ Hle3).
+          destruct (kd_dom_ins f a4 (a3 - (a1 - a2)) q Hd3 Hs ltac:(lia) ltac:(lia)) as (d & E & Hdd).
+          exists d. split; [exact E|]. destruct Hdd as [Hdd|Hdd]; [left; exact Hdd|right; right; right; right; lia].
+      + rewrite (ins_after _ _ _ Hle2). cbn [kd].
+        destruct (kd_ins_ins f (a1 - a2) (a3 - a4) q Hd4 Hs ltac:(lia) ltac:(lia) ltac:(lia)) as (d & E & Hdd).
+        exists d. split; [exact E|].
+        destruct Hdd as [Hdd|[Hdd|Hdd]]; [left; exact Hdd|right; right; left; lia|right; right; right; right; lia].
+  Qed.
+End Diff.
+
+(** ---- 10. lower bounds on the optimum for two bins ---- *)
+Lemma att_prefix k p : forall q s, Forall (fun v => 0 <= v) q -> Attainable k (p ++ q) s ->
+  exists s', Attainable k p s' /\ zmax s' <= zmax s.
+Proof.
+  intros q. induction q as [|x q IH] using rev_ind; intros s Hq Hs.
+  - rewrite app_nil_r in Hs. exists s. split; [exact Hs|lia].
+  - apply Forall_app in Hq. destruct Hq as [Hq Hx]. apply Forall_inv in Hx.
+    rewrite app_assoc in Hs. destruct (Attainable_snoc_inv _ _ _ _ Hs) as (s1 & i & Hs1 & Hi & Es).
+    destruct (IH s1 Hq Hs1) as (s' & Hs' & Hle). exists s'. split; [exact Hs'|].
+    pose proof (zmax_update_mono s1 i x Hx) as H. rewrite <- Es in H. lia.
+Qed.
+
+Ltac two_bins i H := destruct i as [|[|i]]; [| |exfalso; apply Forall_inv in H; lia].
+
+Lemma att2_three a1 a2 a3 s : a2 <= a1 -> a3 <= a2 -> 0 <= a3 ->
+  Attainable 2 [a1; a2; a3] s -> a2 + a3 <= zmax s.
+Proof.
+  intros H1 H2 H3 (asg & Hl & Hv & E). subst s.
+  destruct asg as [|i1 [|i2 [|i3 [|i4 r]]]]; cbn [length] in Hl; try lia.
+  unfold valid_asg in Hv.
+  pose proof Hv as V1. pose proof (Forall_inv_tail V1) as V2. pose proof (Forall_inv_tail V2) as V3.
+  two_bins i1 V1; two_bins i2 V2; two_bins i3 V3; cbn; lia.
+Qed.
+
+Lemma att2_four a1 a2 a3 a4 s : a2 <= a1 -> a3 <= a2 -> a4 <= a3 -> 0 <= a4 ->
+  Attainable 2 [a1; a2; a3; a4] s ->
+  a2 + a3 <= zmax s /\ (a1 + a4 <= zmax s \/ a2 + a3 + a4 <= zmax s).
+Proof.
+  intros H1 H2 H3 H4 (asg & Hl & Hv & E). subst s.
+  destruct asg as [|i1 [|i2 [|i3 [|i4 [|i5 r]]]]]; cbn [length] in Hl; try lia.
+  unfold valid_asg in Hv.
+  pose proof Hv as V1. pose proof (Forall_inv_tail V1) as V2.
+  pose proof (Forall_inv_tail V2) as V3. pose proof (Forall_inv_tail V3) as V4.
+  two_bins i1 V1; two_bins i2 V2; two_bins i3 V3; two_bins i4 V4; cbn; lia.
+Qed.
+
+Lemma opt2_three vs opt a1 a2 a3 q : Opt MinLargest 2 vs opt -> Permutation vs (a1 :: a2 :: a3 :: q) ->
+  a2 <= a1 -> a3 <= a2 -> 0 <= a3 -> Forall (fun v => 0 <= v) q -> a2 + a3 <= opt.
+Proof.
+  intros [(s & Hs & Ev) _] P H1 H2 H3 Hq. rewrite value_MinLargest in Ev. subst opt.
+  apply (Attainable_perm_local 2 _ _ s P) in Hs.
+  destruct (att_prefix 2 [a1; a2; a3] q s Hq Hs) as (s' & Hs' & Hle).
+  pose proof (att2_three a1 a2 a3 s' H1 H2 H3 Hs'). lia.
+Qed.
+
+Lemma opt2_four vs opt a1 a2 a3 a4 q : Opt MinLargest 2 vs opt ->
+  Permutation vs (a1 :: a2 :: a3 :: a4 :: q) ->
+  a2 <= a1 -> a3 <= a2 -> a4 <= a3 -> 0 <= a4 -> Forall (fun v => 0 <= v) q ->
+  a2 + a3 <= opt /\ (a1 + a4 <= opt \/ a2 + a3 + a4 <= opt).
+Proof.
+  intros [(s & Hs & Ev) _] P H1 H2 H3 H4 Hq. rewrite value_MinLargest in Ev. subst opt.
+  apply (Attainable_perm_local 2 _ _ s P) in Hs.
+  destruct (att_prefix 2 [a1; a2; a3; a4] q s Hq Hs) as (s' & Hs' & Hle).
+  pose proof (att2_four a1 a2 a3 a4 s' H1 H2 H3 H4 Hs'). lia.
+Qed.
+
+(** ---- 11. 7/6 for number differencing ---- *)
+Theorem kd_ratio_76 l vs opt : desc l -> Forall (fun v => 0 <= v) l -> l <> [] ->
+  Permutation vs l -> Opt MinLargest 2 vs opt ->
+  exists d, kd (length l - 1) l = [d] /\ 3 * (zsum l + d) <= 7 * opt.
+Proof.
+  intros Hd Hpos Hne P Hopt.
+  assert (Hvs : Forall (fun v => 0 <= v) vs) by (eapply Permutation_Forall; [symmetry; exact P|exact Hpos]).
+  destruct (opt_minlargest_lower_bounds _ _ _ Hopt Hvs ltac:(lia)) as [Hsum Hall].
+  pose proof (opt_minlargest_nonneg _ _ _ Hopt Hvs ltac:(lia)) as H0.
+  rewrite (zsum_perm _ _ P) in Hsum.
+  assert (Hall' : Forall (fun v => v <= opt) l) by (eapply Permutation_Forall; [exact P|exact Hall]).
+  destruct l as [|a1 [|a2 [|a3 [|a4 q]]]]; [congruence| | | |].
+  - exists a1. split; [reflexivity|]. pose proof (Forall_inv Hall'). cbv beta in *. rewrite zs_cons, zs_nil in *. lia.
+  - exists (a1 - a2). split; [reflexivity|]. pose proof (Forall_inv Hall'). cbv beta in *.
+    rewrite !zs_cons, zs_nil in *. lia.
+  - destruct (desc_inv _ _ Hd) as [Hd1 Hx1]. destruct (desc_inv _ _ Hd1) as [Hd2 Hx2].
+    pose proof (Forall_inv Hx1) as H21. pose proof (Forall_inv Hx2) as H32. cbv beta in H21, H32.
+    pose proof (Forall_inv (Forall_inv_tail (Forall_inv_tail Hpos))) as H3. cbv beta in H3.
+    pose proof (Forall_inv Hall') as Ha1. cbv beta in Ha1.
+    pose proof (opt2_three vs opt a1 a2 a3 [] Hopt P H21 H32 H3 ltac:(constructor)) as L23.
+    destruct (kd_three 0 2 a1 a2 a3 [] Hd H3 ltac:(constructor) ltac:(cbn [length]; lia)) as (d & E & Hdd).
+    exists d. split; [exact E|]. rewrite !zs_cons, zs_nil in *. lia.
+  - destruct q as [|a5 q'].
+    + destruct (desc_inv _ _ Hd) as [Hd1 Hx1]. destruct (desc_inv _ _ Hd1) as [Hd2 Hx2].
+      destruct (desc_inv _ _ Hd2) as [Hd3 Hx3].
+      pose proof (Forall_inv Hx1) as H21. pose proof (Forall_inv Hx2) as H32.
+      pose proof (Forall_inv Hx3) as H43. cbv beta in H21, H32, H43.
+      pose proof (Forall_inv (Forall_inv_tail (Forall_inv_tail (Forall_inv_tail Hpos)))) as H4. cbv beta in H4.
+      pose proof (Forall_inv Hall') as Ha1. cbv beta in Ha1.
+      destruct (opt2_four vs opt a1 a2 a3 a4 [] Hopt P H21 H32 H43 H4 ltac:(constructor)) as [L23 L4].
+      destruct (kd_four 0 3 a1 a2 a3 a4 [] Hd H4 ltac:(constructor) ltac:(cbn [length]; lia)) as (d & E & Hdd).
+      exists d. split; [exact E|]. unfold out4 in Hdd. rewrite !zs_cons, zs_nil in *. lia.
+    + destruct (desc_inv _ _ Hd) as [Hd1 Hx1]. destruct (desc_inv _ _ Hd1) as [Hd2 Hx2].
+      destruct (desc_inv _ _ Hd2) as [Hd3 Hx3]. destruct (desc_inv _ _ Hd3) as [Hd4 Hx4].
+      destruct (desc_inv _ _ Hd4) as [Hd5 Hx5].
+      pose proof (Forall_inv Hx1) as H21. pose proof (Forall_inv Hx2) as H32.
+      pose proof (Forall_inv Hx3) as H43. pose proof (Forall_inv Hx4) as H54. cbv beta in H21, H32, H43, H54.
+      pose proof (Forall_inv_tail (Forall_inv_tail (Forall_inv_tail Hpos))) as Hpos4.
+      pose proof (Forall_inv Hpos4) as H4. pose proof (Forall_inv_tail Hpos4) as Hq.
+      pose proof (Forall_inv Hq) as H5. cbv beta in H4, H5.
+      pose proof (Forall_inv Hall') as Ha1. cbv beta in Ha1.
+      destruct (opt2_four vs opt a1 a2 a3 a4 (a5 :: q') Hopt P H21 H32 H43 H4 Hq) as [L23 L4].
+      assert (Hsm : Forall (smallz a5) (a5 :: q')).
+      { constructor; [unfold smallz; lia|]. pose proof (Forall_inv_tail Hq) as Hq'.
+        rewrite Forall_forall in *. intros z Hz. specialize (Hx5 z Hz). specialize (Hq' z Hz). unfold smallz. lia. }
+      assert (L5 : 3 * a5 <= opt).
+      { destruct Hopt as [(s & Hs & Ev) _]. rewrite value_MinLargest in Ev. subst opt.
+        apply (pigeon_thrice 2 vs s a5 H5 Hvs Hs).
+        unfold cnt_ge. rewrite (zsum_perm _ _ (Permutation_map _ P)). fold (cnt_ge a5 (a1 :: a2 :: a3 :: a4 :: a5 :: q')).
+        rewrite !cnt_ge_cons. pose proof (cnt_ge_nonneg a5 q'). unfold ind_ge.
+        destruct (a5 <=? a1) eqn:E1; destruct (a5 <=? a2) eqn:E2; destruct (a5 <=? a3) eqn:E3;
+          destruct (a5 <=? a4) eqn:E4; destruct (a5 <=? a5) eqn:E5; lia. }
+      destruct (kd_four a5 (length (a1 :: a2 :: a3 :: a4 :: a5 :: q') - 1) a1 a2 a3 a4 (a5 :: q') Hd H4 Hsm
+                  ltac:(cbn [length]; lia)) as (d & E & Hdd).
+      exists d. split; [exact E|]. unfold out4 in Hdd. rewrite !zs_cons in *. lia.
+Qed.
+
+(** ---- 12. k = 2: the heap of the model is simulated by number differencing ---- *)
+Section Sim2.
+  Context {A : Type} (valueof : A -> Z).
+
+  Definition dvals (h : @heap A) : list Z := map (fun e => - fst e) h.
+
+  Lemma dvals_insert (e : @hentry A) h : dvals (heap_insert e h) = ins (- fst e) (dvals h).
+  Proof.
+    induction h as [|y t IH]; [reflexivity|]. cbn [heap_insert dvals map ins].
+    destruct (fst e <? fst y) eqn:E1; destruct (- fst y <? - fst e) eqn:E2; try lia.
+    - reflexivity.
+    - cbn [map]. f_equal. exact IH.
+  Qed.
+
+  Lemma two_vec (e : @hentry A) : base 2 e ->
+    exists lo hi, sums (snd e) = [lo; hi] /\ lo <= hi /\ fst e = - (hi - lo).
+  Proof.
+    intros (L & So & K). destruct (sums (snd e)) as [|lo [|hi [|z r]]]; cbn [length] in L; try lia.
+    exists lo, hi. split; [reflexivity|]. inversion So as [|x t _ H]; subst.
+    apply Forall_inv in H. split; [exact H|]. rewrite K. unfold sp, zmax, zmin. cbn. lia.
+  Qed.
+
+  Lemma combine_d (e1 e2 : @hentry A) : base 2 e1 -> base 2 e2 -> - fst e2 <= - fst e1 ->
+    - fst (pushed (kk_combine (snd e1) (snd e2))) = (- fst e1) - (- fst e2).
+  Proof.
+    intros B1 B2 Hle. pose proof (new_base 2 e1 e2 B1 B2) as (_ & _ & Kn).
+    rewrite Kn, (sp_perm _ _ (new_perm e1 e2)).
+    destruct (two_vec e1 B1) as (l1 & h1 & E1 & O1 & K1). destruct (two_vec e2 B2) as (l2 & h2 & E2 & O2 & K2).
+    rewrite E1, E2, K1, K2 in *. cbn [rev app zipsum]. unfold sp, zmax, zmin. cbn. lia.
+  Qed.
+
+  Lemma sim2 : forall f (h : @heap A), Forall (base 2) h -> desc (dvals h) ->
+    dvals (kk_loop f h) = kd f (dvals h) /\ Forall (base 2) (kk_loop f h).
+  Proof.
+    induction f as [|f IH]; intros h HB Hd; [split; [reflexivity|exact HB]|].
+    destruct h as [|e1 [|e2 rest]]; [split; [reflexivity|exact HB]|split; [reflexivity|exact HB]|].
+    cbn [kk_loop]. cbn [dvals map kd]. fold (dvals rest).
+    pose proof (Forall_inv HB) as B1. pose proof (Forall_inv (Forall_inv_tail HB)) as B2.
+    pose proof (Forall_inv_tail (Forall_inv_tail HB)) as BR.
+    cbn [dvals map] in Hd. fold (dvals rest) in Hd.
+    destruct (desc_inv _ _ Hd) as [Hd1 Hx1]. destruct (desc_inv _ _ Hd1) as [Hd2 _].
+    pose proof (Forall_inv Hx1) as H21. cbv beta in H21.
+    rewrite <- (combine_d e1 e2 B1 B2 H21), <- dvals_insert, <- heap_push_pushed.
+    apply IH.
+    - rewrite heap_push_pushed. apply heap_insert_Forall; [exact BR|apply new_base; assumption].
+    - rewrite heap_push_pushed, dvals_insert. apply ins_desc. exact Hd2.
+  Qed.
+
+  Lemma ins_append x l : Forall (fun y => x <= y) l -> ins x l = l ++ [x].
+  Proof.
+    induction 1 as [|y t Hy Ht IH]; [reflexivity|]. cbn [ins app].
+    destruct (y <? x) eqn:E; [lia|]. rewrite IH. reflexivity.
+  Qed.
+
+  Lemma desc_app_le l1 x r : desc (l1 ++ x :: r) -> Forall (fun y => x <= y) l1.
+  Proof.
+    induction l1 as [|y t IH]; cbn [app]; intros H; [constructor|].
+    destruct (desc_inv _ _ H) as [H1 H2]. constructor; [|apply IH; exact H1].
+    rewrite Forall_forall in H2. apply H2. apply in_or_app. right. left. reflexivity.
+  Qed.
+
+  Lemma fold_ins_sorted : forall (l : list A) l1, desc (l1 ++ map valueof l) ->
+    fold_left (fun ds x => ins (valueof x) ds) l l1 = l1 ++ map valueof l.
+  Proof.
+    induction l as [|x t IH]; intros l1 Hd; cbn [fold_left map]; [rewrite app_nil_r; reflexivity|].
+    cbn [map] in Hd. rewrite (ins_append _ _ (desc_app_le _ _ _ Hd)).
+    rewrite IH; rewrite <- app_assoc; [reflexivity|exact Hd].
+  Qed.
+
+  Lemma entry_d x : 0 <= valueof x -> - fst (pushed (singleton_bins valueof true 2 x)) = valueof x.
+  Proof.
+    intros Hv. destruct (entry_base 2 valueof x) as (_ & _ & K).
+    rewrite K, (entry_sv 2 valueof x ltac:(lia) Hv). unfold sp, zmax, zmin. cbn. lia.
+  Qed.
+
+  Lemma dvals_fold : forall l, Forall (fun x => 0 <= valueof x) l -> forall h : @heap A,
+    dvals (fold_left (fun h x => heap_push h (singleton_bins valueof true 2 x)) l h)
+    = fold_left (fun ds x => ins (valueof x) ds) l (dvals h).
+  Proof.
+    induction l as [|x t IH]; intros Hl h; [reflexivity|]. cbn [fold_left].
+    apply Forall_cons_iff in Hl. destruct Hl as [Hx Hl].
+    rewrite (IH Hl), heap_push_pushed, dvals_insert, (entry_d x Hx). reflexivity.
+  Qed.
+
+  Lemma base_fold : forall l (h : @heap A), Forall (base 2) h ->
+    Forall (base 2) (fold_left (fun h x => heap_push h (singleton_bins valueof true 2 x)) l h).
+  Proof.
+    induction l as [|x t IH]; intros h Hh; [exact Hh|]. cbn [fold_left]. apply IH.
+    rewrite heap_push_pushed. apply heap_insert_Forall; [exact Hh|apply entry_base].
+  Qed.
+
+  Lemma initial_dvals items : Forall (fun x => 0 <= valueof x) items ->
+    dvals (initial_heap valueof true 2 items) = sorted_values valueof items /\
+    Forall (base 2) (initial_heap valueof true 2 items).
+  Proof.
+    intros Hpos. unfold initial_heap. split; [|apply base_fold; constructor].
+    rewrite dvals_fold by (eapply Permutation_Forall; [symmetry; apply sort_desc_perm|exact Hpos]). cbn [dvals map].
+    rewrite fold_ins_sorted; [reflexivity|]. cbn [app]. apply (sorted_values_sorted valueof items).
+  Qed.
+
+  (** C08 for k = 2 (Fischetti and Martello 1987: 7/6) *)
+  Theorem kk_ratio_43_k2 items b opt : items <> [] -> Forall (fun x => 0 <= valueof x) items ->
+    kk valueof true 2 items = Ok b -> Opt MinLargest 2 (map valueof items) opt ->
+    3 * Z.of_nat 2 * zmax (sums b) <= (4 * Z.of_nat 2 - 1) * opt.
+  Proof.
+    intros Hne Hpos Hkk Hopt.
+    destruct (kk_partition valueof 2 items ltac:(lia) Hne) as (b' & Hb' & Hpart).
+    rewrite Hkk in Hb'. injection Hb' as <-.
+    pose proof (Attainable_sum _ _ _ (partition_attainable valueof 2 items b Hpart)) as Hsum.
+    destruct (initial_dvals items Hpos) as [Ed HB].
+    set (l := sorted_values valueof items) in *.
+    assert (Hlen : length l = length items).
+    { unfold l, sorted_values. rewrite map_length. apply sort_desc_length. }
+    assert (Hl : l <> []).
+    { intros E. rewrite E in Hlen. destruct items; [congruence|discriminate Hlen]. }
+    destruct (kd_ratio_76 l (map valueof items) opt (sorted_values_sorted valueof items)
+                (sorted_values_nonneg valueof items Hpos) Hl
+                (Permutation_sym (sorted_values_perm valueof items)) Hopt) as (d & Ek & Hd).
+    destruct (sim2 (length items - 1) _ HB) as [Es HBf].
+    { rewrite Ed. apply (sorted_values_sorted valueof items). }
+    rewrite Hlen in Ek. rewrite Ed, Ek in Es.
+    unfold kk in Hkk.
+    destruct (kk_loop (length items - 1) (initial_heap valueof true 2 items)) as [|e [|e' r]];
+      cbn [dvals map] in Es; try discriminate Es.
+    injection Hkk as <-. injection Es as Ee.
+    destruct (two_vec e (Forall_inv HBf)) as (lo & hi & E & Ho & K).
+    rewrite E in *. rewrite <- (zsum_perm _ _ (sorted_values_perm valueof items)) in Hsum. fold l in Hsum.
+    rewrite !zs_cons, zs_nil in Hsum. unfold zmax. cbn. Show. lia.
+  Qed.
+End Sim2.
